@@ -445,7 +445,7 @@ def r05_3(run):
             hits += 1
             run.ob('R05.3', pr, c, 'error built from the reply code field', a.args and dotted(a.args[0]) == rep, slot='error-from-rep',
                    message='_create_socks_error given %s, the REP field is %s' % (src(a.args[0]) if a.args else '', rep))
-    run.floor('R05.3', 'reply_error(_create_socks_error(rep)) sites', hits, 1)
+    run.floor('R05.3-map', 'reply_error(_create_socks_error(rep)) sites', hits, 1)
     # dispatch table keyed by ATYP
     for n in walk_unit(pr):
         if isinstance(n, ast.Subscript) and isinstance(n.value, ast.Name) and n.value.id in names_defined_by(pr, lambda v: isinstance(v, ast.Dict)):
